@@ -1,6 +1,6 @@
 Require Extraction.
 Require Import ExtrOcamlBasic.
-From CSL Require Import Base.Prelude Base.U64 Cbor.Head MinAda.OutputSize MinAda.MinAda MinAda.Change MinAda.Judge.
+From CSL Require Import Base.Prelude Base.U64 Cbor.Head MinAda.OutputSize MinAda.MinAda MinAda.Change MinAda.Judge MinAda.TxSize MinAda.BuildScenario.
 Extraction Language OCaml.
 Definition keepN : N := N.add 0 0.
 Definition keepZ : Z := Z.add 0 0.
@@ -8,6 +8,6 @@ Definition keepNat : nat := length (@nil N).
 Extraction "model_c07.ml" keepN keepZ keepNat
   mkOut mkCfg mkReq mkObs out_size out_value_size set_coin
   model_min_ada model_add_output model_helper model_collret model_build_assets model_build_ada model_last_admitted
-  build_guard obs_of
+  build_guard obs_of mkTx full_tx_size build_tx_guard run_build_case
   judge_min_ada judge_admission judge_helper judge_collret judge_collraw judge_build
   helper_repaired collateral_checks_value_size topup_revalidates.
